@@ -106,6 +106,11 @@ def run(cx):
                 badstack.append((r_["id"], j))
         if not any(v["api"] == "RisorCall" for v in r_["inv"]):   # risor.Call is two VM runs: its hook events are not one per invocation
             traces.append({"id": r_["id"], "events": res["events"]})
+    # a driver that cannot run the histories decides nothing: that is Inconclusive, never "ok"
+    dead = sum(1 for r_ in outs if r_["res"].get("k") != "ok")
+    if dead > max(3, len(outs) // 100) or len(outs) < len(rows):
+        raise vlib.Inconclusive("the driver could not run %d of %d histories (%d results): %s" % (
+            dead, len(rows), len(outs), next((str(r_["res"])[:200] for r_ in outs if r_["res"].get("k") != "ok"), "no output")))
     # re-execute disagreeing histories (schedule dependent: quorum of 3)
     by_id = {r_["id"]: r_ for r_ in outs}
     reported = 0
